@@ -417,10 +417,14 @@ def run(tier, seed, t0):
             if fname.endswith(':spouse'):
                 continue
             tasks.append(Task(f'C02/{year}/{fname}', check_form, year, fname, weight=len(form.fields())))
+    from . import roles
+    for year in extract.YEARS:
+        tasks.append(Task(f'C02/{year}/roles', roles.role_symmetry, year, weight=20))
+        tasks.append(Task(f'C02/{year}/copies', roles.copy_symmetry, year, weight=20))
     obs = oblig.run_tasks(tasks)
     functions = sorted({o.function for o in obs if o.function and not o.bounded})
     return oblig.finish('C02', tier, seed, obs, t0, functions=functions[:60] + [f'... {len(functions)} line functions in all'],
-                        trusted_base=base.TRUSTED + ['pyvc/pdfread.py, pyvc/instr.py (template reader and instruction grammar)', 'contracts/instructions_transcribed.json (cited transcriptions)'],
+                        trusted_base=base.TRUSTED + ['pyvc/pdfread.py, pyvc/instr.py (template reader and instruction grammar)', 'contracts/instructions_transcribed.json (cited transcriptions)', 'contracts/per_person_lines.json (lines that treat both spouses alike)'],
                         assumptions=base.assumptions('A-PY', 'A-REAL', 'A-READ', 'A-SIGMA', 'A-ORACLE') + [
                             'only instructions matched completely by the strict grammar are used; lines with prose-only instructions are listed as uncovered (bounded entries) and are not claimed',
                             'rounding of the stored value is not part of the comparison (the line function result is compared before FloatField rounding)'],
